@@ -36,7 +36,20 @@ pub fn meta() -> PropMeta {
 #[derive(Clone, Debug, Serialize, Deserialize, Hash)]
 pub enum Op {
     Send { link: u8, len: u16 },
-    Flow { window: u32, lag: u8, echo: bool },
+    Flow {
+        window: u32,
+        lag: u8,
+        echo: bool,
+        /// address the flow to this sending link (a link flow with echo is answered by the link, through the session)
+        #[serde(default)]
+        link: Option<u8>,
+        /// leave next-incoming-id unset (legal: the window then counts from the endpoint's initial outgoing id)
+        #[serde(default)]
+        nii_unset: bool,
+        /// (link flows) ask the sending link to drain
+        #[serde(default)]
+        drain: bool,
+    },
     PeerTransfer { len: u16 },
 }
 
@@ -63,7 +76,7 @@ pub struct Case {
 fn op() -> BoxedStrategy<Op> {
     prop_oneof![
         5 => (0u8..2, prop_oneof![Just(0u16), 1u16..300, 300u16..2000]).prop_map(|(link, len)| Op::Send { link, len }),
-        4 => (prop_oneof![3 => Just(0u32), 3 => Just(1u32), 2 => Just(2u32), 2 => 3u32..8, 1 => Just(1000u32)], prop_oneof![3 => Just(0u8), 1 => 1u8..4], any::<bool>()).prop_map(|(window, lag, echo)| Op::Flow { window, lag, echo }),
+        4 => (prop_oneof![3 => Just(0u32), 3 => Just(1u32), 2 => Just(2u32), 2 => 3u32..8, 1 => Just(1000u32)], prop_oneof![3 => Just(0u8), 1 => 1u8..4], any::<bool>(), proptest::option::weighted(0.35, 0u8..2), prop::bool::weighted(0.15), prop::bool::weighted(0.3)).prop_map(|(window, lag, echo, link, nii_unset, drain)| Op::Flow { window, lag, echo, link, nii_unset, drain: drain && link.is_some() }),
         2 => (0u16..200).prop_map(|len| Op::PeerTransfer { len }),
     ]
     .boxed()
@@ -236,6 +249,10 @@ pub async fn run_async(c: &Case, split_open: bool) -> Result<Info, String> {
     let mut sent_per_link: Vec<Vec<Vec<u8>>> = vec![Vec::new(); n_senders];
     let mut wire_per_link: Vec<Vec<u8>> = vec![Vec::new(); n_senders];
     let mut seq_per_link: Vec<u32> = vec![0; n_senders];
+    let mut flow_handles_in_step: Vec<Option<u32>> = Vec::new();
+    let mut drain_answers: Vec<(u32, u32)> = Vec::new();
+    // deliveries completed on each link (transfers with more=false), as the peer counts them
+    let mut deliveries_per_link: Vec<u32> = vec![0; n_senders];
     let max_len = (c.peer_mfs as usize).saturating_sub(120);
 
     // one step: settle, consume new frames, run the model checks
@@ -246,6 +263,8 @@ pub async fn run_async(c: &Case, split_open: bool) -> Result<Info, String> {
                 return Err(format!("endpoint wrote bytes that do not parse as frames: {e}"));
             }
             let sent_before = sent;
+            flow_handles_in_step.clear();
+            drain_answers.clear();
             for f in &frames {
                 match f.name() {
                     "transfer" => {
@@ -268,6 +287,9 @@ pub async fn run_async(c: &Case, split_open: bool) -> Result<Info, String> {
                         let h = u(&f.field(0)).ok_or("transfer without handle")?;
                         let li = ep_handle_of_link.iter().position(|x| *x == h).ok_or_else(|| format!("transfer on unknown handle {h}"))?;
                         wire_per_link[li].extend_from_slice(&f.payload);
+                        if !rframe::boolean(&f.field(5)).unwrap_or(false) {
+                            deliveries_per_link[li] = deliveries_per_link[li].wrapping_add(1);
+                        }
                     }
                     "flow" => {
                         let ff = f.fields();
@@ -289,6 +311,16 @@ pub async fn run_async(c: &Case, split_open: bool) -> Result<Info, String> {
                             return Err(format!("{}: flow reports windows {:?}/{:?}, configured {}/{}", $what, ff[1], ff[3], c.ep_in_win, c.ep_out_win));
                         }
                         info.flows_checked += 1;
+                        flow_handles_in_step.push(u(&ff[4]));
+                        if let Some(h) = u(&ff[4]) {
+                            if let Some(li) = ep_handle_of_link.iter().position(|x| *x == h) {
+                                // the receiver takes the sender's delivery-count from its flows
+                                if let Some(dc) = u(&ff[5]) {
+                                    deliveries_per_link[li] = dc;
+                                }
+                                drain_answers.push((h, u(&ff[6]).unwrap_or(0)));
+                            }
+                        }
                     }
                     "disposition" => {}
                     other => return Err(format!("{}: unexpected {} frame from the endpoint", $what, other)),
@@ -357,11 +389,22 @@ pub async fn run_async(c: &Case, split_open: bool) -> Result<Info, String> {
                 }
                 app_total += frames_needed;
             }
-            Op::Flow { window, lag, echo } => {
+            Op::Flow { window, lag, echo, link, nii_unset, drain } => {
                 let lag = (*lag as u64).min(sent);
                 let nii_off = sent - lag;
-                limit = nii_off + *window as u64;
-                let body = Peer::flow_body(Some(c.n0.wrapping_add(nii_off as u32)), *window, c.p0.wrapping_add(peer_sent as u32), peer_out_win, None, None, None, false, *echo);
+                // unset next-incoming-id: the window counts from the endpoint's initial outgoing id; only
+                // generated while that still covers what was sent
+                let unset = *nii_unset && (*window as u64) >= sent;
+                limit = if unset { *window as u64 } else { nii_off + *window as u64 };
+                let nii = if unset { None } else { Some(c.n0.wrapping_add(nii_off as u32)) };
+                let (h, dc, lc) = match link {
+                    Some(l) => {
+                        let li = (*l as usize) % n_senders;
+                        (Some(peer_handles[li]), Some(deliveries_per_link[li]), Some(100_000u32))
+                    }
+                    None => (None, None, None),
+                };
+                let body = Peer::flow_body(nii, *window, c.p0.wrapping_add(peer_sent as u32), peer_out_win, h, dc, lc, *drain && h.is_some(), *echo);
                 peer.send_frame(my_ch, &body, &[]).await?;
             }
             Op::PeerTransfer { len } => {
@@ -377,6 +420,22 @@ pub async fn run_async(c: &Case, split_open: bool) -> Result<Info, String> {
             }
         }
         step!(what);
+        // a drain request on a link is answered with a flow showing zero credit for that link (C08),
+        // also when the same flow released transfers held back by the session window
+        if let Op::Flow { drain: true, link: Some(l), .. } = op {
+            let li = (*l as usize) % n_senders;
+            let eh = ep_handle_of_link[li];
+            match drain_answers.iter().find(|(h, _)| *h == eh) {
+                Some((_, credit)) if *credit == 0 => {}
+                Some((_, credit)) => return Err(format!("{what}: the drain request on link {li} was answered with link-credit {credit} instead of 0")),
+                None => return Err(format!("{what}: the peer asked link {li} (handle {eh}) to drain but no flow for that link was sent (flows sent for handles {:?})", flow_handles_in_step)),
+            }
+            // grant ample credit again so that the session window stays the only limit
+            let body = Peer::flow_body(Some(c.n0.wrapping_add(sent as u32)), (limit - sent.min(limit)) as u32, c.p0.wrapping_add(peer_sent as u32), peer_out_win, Some(peer_handles[li]), Some(deliveries_per_link[li]), Some(100_000), false, false);
+            peer.send_frame(my_ch, &body, &[]).await?;
+            limit = sent + (limit - sent.min(limit));
+            step!(format!("{what} (credit granted again)"));
+        }
     }
     // reopen the window completely: everything queued must come out
     limit = sent + 1_000_000;
